@@ -31,7 +31,8 @@ def main(tier, evidence):
                 "must give ONE trace. Groups: dudect_keygen_sign_with_rng for RNG answers {00, FF, AA, 55, 512 one-hot, counter} x 3 sets x 2 message lengths; scalar kernels on complete domains "
                 "(center_mod, decompose on all 8380417 residues, reductions, make_hint r-sweeps for a z alphabet incl. 0 and q); vector kernels (norm, ntt, inv_ntt, to_mont, power2round, bit_pack, "
                 "is_in_range on in-range inputs, mat_vec_mul, ExpandMask, ExpandS/HintBitPack in test mode) over one-hot x alphabet + extremal + pseudo-random vectors. Every input is a distinct non-trivial case "
-                "(no test observes control flow). Two control groups (a leaky function, is_in_range on failing input) must show > 1 trace, else the tracer is blind (machinery error).")
+                "(no test observes control flow). Normal-mode signing (rejection sampling active) is compared under secret-only variation: private keys that differ only in s1 and share the reference's rejection sequence "
+                "(witnesses/ct_paired_s1.json, selected with the reference model so that the first out-of-bound position of z differs) have an identical public transcript and must give one trace. Two control groups (a leaky function, is_in_range on failing input) must show > 1 trace, else the tracer is blind (machinery error).")
     profiles = ["release"] + (["o3"] if tier == "thorough" else [])
     for prof in profiles:
         exe = build(prof)
@@ -60,7 +61,7 @@ def main(tier, evidence):
                 continue
             rep.count("%s[%s]" % (fam, prof), n)
             rep.outcome("groups_with_one_trace" if d == 1 else "groups_with_several_traces", 1)
-            if len(rep.samples) < 10 and (name.startswith("pipeline") or name.startswith("decompose") or name.startswith("ntt:coeff")):
+            if len(rep.samples) < 10 and (name.startswith("pipeline:ml_dsa_44") or name.startswith("normal-mode-sign:ml_dsa_65") or name.startswith("decompose") or name.startswith("ntt:coeff")):
                 rep.samples.append({"profile": prof, "group": name, "inputs": n, "distinct_traces": d, "events_per_run": g["examples"][0]["events"]})
             if d != 1:
                 rep.violate("c14:%s" % fam, "profile %s, group %s: %d distinct edge/address traces over %d inputs that differ only in secret data; e.g. %s; first divergence: %s" % (prof, name, d, n, g["examples"][:3], g.get("first_divergence", "")),
